@@ -133,6 +133,12 @@ func (p *prop) Run(line string) core.Outcome {
 		if len(f) == 2 {
 			return runBind(line, f[1])
 		}
+	case "ws":
+		if len(f) == 2 {
+			if t, err := core.UnHex(f[1]); err == nil && core.Hex(t) == f[1] {
+				return runWs(line, t)
+			}
+		}
 	case "env":
 		if len(f) == 3 {
 			return runEnv(line, f[1], f[2])
@@ -307,6 +313,7 @@ func runAdapt(line, text string, mutated bool) core.Outcome {
 		o.Failures = append(o.Failures, core.Failure{Case: line, Class: "lexer-error-but-adapter-accepts",
 			What: fmt.Sprintf("Tokenize rejects the text but Adapt accepts it; input %q", clip(text, 400))})
 	}
+	checkDropped(line, text, r, &o)
 	if r.err != nil {
 		o.Tags = append(o.Tags, "adapt:rejected", errTag(r.err))
 		if len(strings.TrimSpace(text)) == 0 {
